@@ -14,16 +14,17 @@ type c15Case struct {
 	ID       int    `json:"id"`
 	Flow     string `json:"flow"`
 	API      bool   `json:"api"`
-	Redir    string `json:"redir"`    // hex
+	Redir    string `json:"redir"` // hex
 	Status   int    `json:"status"`
 	Location string `json:"location"` // hex: Location header, or JSON "location"
 	Default  string `json:"default"`  // hex
 	UID      string `json:"uid"`      // hex: session uid afterwards (the flow did log in)
+	Suffix   string `json:"suffix"`   // hex: what the flow appends to the chosen target ("?ref=mail" for the oauth2x flow)
 }
 
 func c15Strings(rng *rand.Rand, n int, exh int) []string {
 	pre := []string{"", "/", "//", "/\\", "\\/", "\\\\", "http://", "https://", "https:/", "http:", "HTTPS://", "javascript:",
-		"/\t/", "\t//", " //", "/%2f/", "/./", "/../", "/a/../..//", "///", "/\n/", "\x00//", "/\r\\", "data:", "//\\", "/@", "/;/"}
+		"/\t/", "\t//", " //", "/%2f/", "/%2F", "/%252F", "/%5c", "/./", "/../", "/a/../..//", "///", "/\n/", "\x00//", "/\r\\", "data:", "//\\", "/@", "/;/"}
 	host := []string{"evil.test", "evil.test/x", "site.test", "x", "", "evil.test:80", "user@evil.test", "a b"}
 	suf := []string{"", "?a=1", "#f", "/", "/..", "?u=http://e.test", "?redir=//e", "\t", " "}
 	seen := map[string]bool{}
@@ -116,8 +117,12 @@ func c15Run(flow string, api bool, redir string, id int) c15Case {
 		login("u3", "Login", Desc{K: "pw", U: "u3"})
 		last = r.exec(SymStep{Kind: "req", Req: &SymReq{Browser: "b1", Method: "POST", Route: "SmsValidate", Query: q,
 			Form: []KV{{"code", Desc{K: "sessval", B: "b1", V: "sms_secret"}}}}})
-	case "oauth2":
+	case "oauth2", "oauth2x":
 		c.Default = hx("/ok/oauth2")
+		if flow == "oauth2x" { // another pass-through parameter travels along
+			q = append(q, KV{"ref", lit("mail")})
+			c.Suffix = hx("?ref=mail")
+		}
 		r.exec(SymStep{Kind: "req", Req: &SymReq{Browser: "b1", Method: "GET", Route: "OAuthStart", Arg: "google", Query: q}})
 		last = r.exec(SymStep{Kind: "req", Req: &SymReq{Browser: "b1", Method: "GET", Route: "OAuthCallback", Arg: "google",
 			Query: []KV{{"state", Desc{K: "sessval", B: "b1", V: "oauth2_state"}}, {"code", lit("c")}}},
@@ -149,9 +154,9 @@ func init() {
 			if *count > 0 && *first+*count < hi {
 				hi = *first + *count
 			}
-			id := *first * 12
+			id := *first * 14
 			for i := *first; i < hi; i++ {
-				for _, flow := range []string{"password", "passwordform", "otp", "totp", "sms", "oauth2"} {
+				for _, flow := range []string{"password", "passwordform", "otp", "totp", "sms", "oauth2", "oauth2x"} {
 					for _, api := range []bool{false, true} {
 						if flow == "passwordform" && api {
 							continue
